@@ -498,7 +498,7 @@ func c13States(depth int) [][]c13Op {
 				if seen[k] {
 					// the model state is not new, but the implementation got there another way (e.g. alias added and
 					// removed again): the transition is still executed and judged, it is only not expanded further
-					if o.Op == "unalias" || o.Op == "delete" || o.Op == "alias" {
+					if o.Op == "unalias" || o.Op == "delete" || o.Op == "alias" || o.Op == "ingest" {
 						out = append(out, p)
 					}
 					continue
